@@ -24,6 +24,13 @@ PKG_RELS = 'http://schemas.openxmlformats.org/package/2006/relationships'
 CORE_RT = 'http://schemas.openxmlformats.org/package/2006/relationships/metadata/core-properties'
 
 
+STRICT = [('http://schemas.openxmlformats.org/wordprocessingml/2006/main', 'http://purl.oclc.org/ooxml/wordprocessingml/main'),
+          ('http://schemas.openxmlformats.org/officeDocument/2006/relationships', 'http://purl.oclc.org/ooxml/officeDocument/relationships'),
+          ('http://schemas.openxmlformats.org/officeDocument/2006/math', 'http://purl.oclc.org/ooxml/officeDocument/math'),
+          ('http://schemas.openxmlformats.org/drawingml/2006/main', 'http://purl.oclc.org/ooxml/drawingml/main'),
+          ('http://schemas.openxmlformats.org/drawingml/2006/wordprocessingDrawing', 'http://purl.oclc.org/ooxml/drawingml/wordprocessingDrawing')]
+
+
 def ns_decl(omit=()):
     return ' '.join(f'xmlns:{p}="{u}"' for p, u in NSMAP.items() if p not in omit)
 
@@ -519,4 +526,12 @@ def make_package(rng, prof=None, body=None):
     if r.random() < 0.3: pk.add('customXml/item1.xml', '<root><x>1</x></root>')
     if r.random() < 0.3: pk.add('word/settings.xml', f'<w:settings {ns_decl()}/>')
     meta = {'stats': g.stats, 'features': sorted(g.feat), 'ranges': len(g.comment_ids), 'comments': ncom, 'body': body_xml}
+    if r.random() < prof.get('p_strict', 0.0):
+        # the Strict conformance class (ISO/IEC 29500 Strict, Word's "Strict Open XML Document"): other namespace URIs, same prefixes
+        for n, d in list(pk.members):
+            if n.endswith(('.xml', '.rels')):
+                t = d
+                for a, b in STRICT: t = t.replace(a.encode(), b.encode())
+                pk.set(n, t)
+        meta['features'] = sorted(set(meta['features']) | {'strict_namespaces'})
     return pk, meta
